@@ -1181,16 +1181,19 @@ def compute_image_info_s11 (sw3 : Nat) (solid_alpha : Nat) (flags : Nat) (width 
         if radial_a_nonneg ≠ 0 then
           (code, flags)
         else
-          let code := 262144
-          if repeat_ ≠ 0 then
-            let flags := flags ||| 8192
-            if anyBelow n_stops (fun i_n => decide (Int.ofNat (stop_alpha i_n) ≠ 65535)) = true then
-              let flags := flags &&& 4294959103
-              (code, flags)
+          if flags &&& 131072 = 0 then
+            (code, flags)
+          else
+            let code := 262144
+            if repeat_ ≠ 0 then
+              let flags := flags ||| 8192
+              if anyBelow n_stops (fun i_n => decide (Int.ofNat (stop_alpha i_n) ≠ 65535)) = true then
+                let flags := flags &&& 4294959103
+                (code, flags)
+              else
+                (code, flags)
             else
               (code, flags)
-          else
-            (code, flags)
       else
         if (sw3 = 2) ∨ (sw3 = 1) then
           let code := 262144
